@@ -107,7 +107,19 @@ const (
 func Parse(src string, style Style) (res ParseResult) {
 	toks, lerr := lex(src)
 	if lerr != nil {
-		return ParseResult{Syntax: true, Msg: lerr.msg}
+		// the string is outside the grammar whatever the parser thinks; parse the tokens before the failure only to
+		// learn which static faults (unknown function, arity, argument kind) a lazy scanner meets before the bad token
+		toks = append(toks, token{tLexErr, "<scan error>", lerr.pos, lerr.pos, false}, token{tEOF, "", len(src), len(src), false})
+		res = ParseResult{Syntax: true, Msg: lerr.msg}
+		func() {
+			p := &parser{toks: toks, style: style}
+			defer func() {
+				recover()
+				res.Static = p.static
+			}()
+			p.expression(0)
+		}()
+		return res
 	}
 	p := &parser{toks: toks, style: style}
 	defer func() {
